@@ -37,6 +37,41 @@ def roundOk (s : String) : Option Bool :=
     pure (validSlots ops lo slots)
   | _ => none
 
+/-- What the coalescing loop met: (merged, kept for an edge dst→src only, kept for an edge src→dst only,
+kept for edges both ways, kept by the Briggs/George test) -/
+structure CoStats where
+  merged : Nat := 0
+  fwd : Nat := 0
+  bwd : Nat := 0
+  both : Nat := 0
+  unsafeKept : Nat := 0
+
+def coStatsStep (K : Nat) (acc : CoState × CoStats) (x : AOp × RSet) : CoState × CoStats :=
+  let st := acc.1
+  let cs := acc.2
+  let cs' := match moveOf? x.1 with
+    | some (.virt a, .virt b) =>
+      let r1 := rep st.map (.virt a)
+      let r2 := rep st.map (.virt b)
+      if r1 = r2 then cs else
+      let f := decide ((r1, r2) ∈ st.graph)
+      let bk := decide ((r2, r1) ∈ st.graph)
+      if f && bk then { cs with both := cs.both + 1 }
+      else if f then { cs with fwd := cs.fwd + 1 }
+      else if bk then { cs with bwd := cs.bwd + 1 }
+      else if !coalesceSafe K st.graph r1 r2 then { cs with unsafeKept := cs.unsafeKept + 1 }
+      else { cs with merged := cs.merged + 1 }
+    | _ => cs
+  (coalesceStep (coalesceSafe K) st x, cs')
+
+def coStats (K : Nat) (ops : List AOp) (lo : List RSet) (g : Graph) : CoStats :=
+  ((ops.zip lo).foldl (coStatsStep K) ({ graph := g, map := [], kept := [] }, {})).2
+
+def flag (n : Nat) : String := if n = 0 then "0" else "1"
+
+def canonMap (m : List (Reg × Reg)) : List Nat :=
+  dedupSorted (sortNats ((m.filter fun e => e.1 != e.2).map fun e => Reg.key e.1 * 4294967296 + Reg.key e.2))
+
 def answerAlloc (c : List String) (kv : List (String × String)) : String :=
   match c with
   | [opsText] =>
@@ -55,39 +90,52 @@ def answerAlloc (c : List String) (kv : List (String × String)) : String :=
             | some "ok" =>
               match (get kv "live").bind parseSets?, (get kv "edges").bind parseEdges?,
                 (get kv "cops").bind parseOps?, (get kv "clive").bind parseSets?,
-                (get kv "cedges").bind parseEdges? with
-              | some rl, some re, some rco, some rcl, some rce =>
+                (get kv "cedges").bind parseEdges?, (get kv "cmap").bind parseEdges'? with
+              | some rl, some re, some rco, some rcl, some rce, some rcm =>
                 [sameSets lo rl, canonEdges g == canonEdges re,
                   (match withSucc co.ops with
                       | some mo => sameOps mo rco
                       | none => false),
-                  sameSets co.liveOut rcl, canonEdges co.graph == canonEdges rce]
-              | _, _, _, _, _ => [false]
+                  sameSets co.liveOut rcl, canonEdges co.graph == canonEdges rce,
+                  canonMap co.map == canonMap rcm]
+              | _, _, _, _, _, _ => [false]
             | _ => [false]
           let stagesAgree := flags.all id
           let fl := "".intercalate (flags.map b01)
           let p := pressure lo
-          let info := s!"succ={b01 succOk} stages={fl} size={sizeClass ops.length} pressure={pressureClass p K} src={(get kv "src").getD "?"}"
+          let cs := coStats K ops lo g
+          let info := s!"succ={b01 succOk} stages={fl} co={flag cs.merged}{flag cs.fwd}{flag cs.bwd}{flag cs.both}{flag cs.unsafeKept} size={sizeClass ops.length} pressure={pressureClass p K} src={(get kv "src").getD "?"}"
           match get kv "status" with
           | some "ok" =>
-            match (get kv "final").bind parseOps?, (get kv "assign").bind parseAssign?, get kv "spilled" with
-            | some fin0, some asg, some sp =>
+            match (get kv "final").bind parseOps?, (get kv "assign").bind parseAssign?, get kv "spilled",
+              (get kv "rmap").bind parseEdges'?, get kv "pre" with
+            | some fin0, some asg, some sp, some rmap, some preText =>
               match withSucc fin0 with
               | none => s!"nosucc-final agree=0 prop=1 {info}"
               | some fin =>
                 let finSucc := fin.map (·.succ) == fin0.map (·.succ)
-                match liveness true fin with
-                | none => s!"nofix-final agree=0 prop=1 {info}"
-                | some lof =>
+                -- the op list the last colouring round started from, with its liveness
+                let preLo : Option (List AOp × List RSet) :=
+                  if preText = "same" then some (ops, lo) else do
+                    let p0 ← parseOps? preText
+                    let p1 ← withSucc p0
+                    let l ← liveness true p1
+                    pure (p1, l)
+                match liveness true fin, preLo with
+                | some lof, some (pre, lop) =>
                   let va := validAlloc fin lof (colourFn asg) K
+                  let e2e := validAlloc pre lop (fun r => colourFn asg (rep rmap r)) K
+                  let ren := coalesceMatches rmap pre fin
                   let rounds := if sp = "-" then [] else sp.splitOn "#"
                   let rs := rounds.map roundOk
                   let slotsOk := rs.all fun r => r == some true
                   let parsedOk := rs.all fun r => r.isSome
                   let dc := get kv "dc" == some "1"
-                  let agree := succOk && finSucc && stagesAgree && dc && parsedOk
-                  s!"ok agree={b01 agree} prop={b01 (va && slotsOk)} valid={b01 va} slots={b01 slotsOk} fin={b01 finSucc}{b01 dc}{b01 parsedOk} rounds={rounds.length} coalesced={ops.length - co.ops.length} {info}"
-            | _, _, _ => s!"bad-final agree=0 prop=1 {info}"
+                  let replay := get kv "replay" == some "1"
+                  let agree := succOk && finSucc && stagesAgree && dc && parsedOk && replay
+                  s!"ok agree={b01 agree} prop={b01 (va && e2e && ren && slotsOk)} valid={b01 va} e2e={b01 e2e} ren={b01 ren} slots={b01 slotsOk} fin={b01 finSucc}{b01 dc}{b01 parsedOk}{b01 replay} rounds={rounds.length} coalesced={ops.length - co.ops.length} {info}"
+                | _, _ => s!"nofix-final agree=0 prop=1 {info}"
+            | _, _, _, _, _ => s!"bad-final agree=0 prop=1 {info}"
           | some "err" => s!"err agree={b01 (succOk && stagesAgree)} prop=1 rounds=err {info}"
           | _ => s!"panic agree=0 prop=1 {info}"
     | _, _ => "bad-ops agree=0 prop=1"
